@@ -502,6 +502,13 @@ func (p *Posix) DeleteBucket(_ context.Context, bucket string) error {
 	if err != nil {
 		return fmt.Errorf("remove bucket: %w", err)
 	}
+	// The settings of the bucket (ACL, policy, tags, ...) go with it: a
+	// metadata store that keeps them apart from the directory would hand
+	// them to the next bucket created under this name
+	err = p.meta.DeleteAttributes(bucket, "")
+	if err != nil {
+		return fmt.Errorf("remove bucket attributes: %w", err)
+	}
 	// Remove the bucket from versioning directory
 	if p.versioningEnabled() {
 		err = os.RemoveAll(filepath.Join(p.versioningDir, bucket))
